@@ -247,7 +247,15 @@ class Atoms:
         self.idx = {("NoneType", None): 0}
 
     def intern(self, v):
-        k = (type(v).__name__, v)
+        try:
+            hash(v)
+            k = (type(v).__name__, v)
+        except TypeError:
+            k = ("id", id(v))
+            self._keep = getattr(self, "_keep", [])
+            self._keep.append(v)
+        if type(v).__name__ == "Match":     # re.Match: only its truthiness/groups matter
+            k = ("Match", v.span(), v.string, v.re.pattern)
         if k not in self.idx:
             self.idx[k] = len(self.vals)
             self.vals.append(v)
